@@ -74,6 +74,16 @@ fn known_match<'a>(known: &'a [KnownFinding], v: &world::Violation) -> Option<&'
     })
 }
 
+/// `no_panic_in_run` (a library panic during an honest run of another property): is this panic one of C37's recorded findings?
+fn panic_recorded_under_c37(known: &[KnownFinding], signature: &str) -> bool {
+    known.iter().any(|k| {
+        k.status == "known"
+            && k.property == "C37"
+            && k.oracle.as_deref().map(|o| o == "no_panic").unwrap_or(true)
+            && if k.prefix { signature.starts_with(&k.signature) } else { signature == k.signature }
+    })
+}
+
 fn verif_dir() -> std::path::PathBuf {
     std::env::var("VERIF_DIR").map(std::path::PathBuf::from).unwrap_or_else(|_| "/verif".into())
 }
@@ -176,6 +186,11 @@ fn cmd_worker(args: &[String]) {
             Verdict::HarnessError(e) => {
                 harness_error = Some(format!("run {idx} (run_seed {run_seed}): {e}"));
                 break;
+            }
+            Verdict::Violation(v) if v.oracle == "no_panic_in_run" && panic_recorded_under_c37(&known, &v.signature) => {
+                // a panic C37 already lists as a known finding: set aside as before (counted, NOTE), not re-reported here
+                discarded += 1;
+                *discarded_sigs.entry(v.signature.clone()).or_insert(0) += 1;
             }
             Verdict::Violation(v) => {
                 if let Some(k) = known_match(&known, v) {
